@@ -89,11 +89,14 @@ def run_case(c, d):
     from quansino.io.restart import RestartObserver
     mc.default_restart = path
     files, ref = [], []
-    for _ in mc.srun(n):
+    rt = p.get("retune")          # {"step": j, "T": T2}: at the yield of iteration j the user re-tunes the temperature (applies to all later steps; written to the files from j+1 on)
+    for i, _ in enumerate(mc.srun(n)):
         # (srun yields before the observers of this step run: the file on disk describes the state after `step_count` steps)
         with open(path) as fh:
             files.append(fh.read())
         ref.append(observe(s, mc))
+        if rt and i == rt["step"]:
+            mc.temperature = rt["T"]
     mc.file_manager.close() if hasattr(mc.file_manager, "close") else None
     # ref[i] = state after i+1 steps (observed at the yield, before step_count is incremented); files[i] = file describing step_count == i
     out = {"ref": ref, "restarts": [], "file_sizes": [len(f) for f in files]}
@@ -110,8 +113,10 @@ def run_case(c, d):
             got = []
             s2 = type("S", (), {})()
             loaded0 = observe(s2, mc2)
-            for _ in mc2.srun(n - k):
+            for i2, _ in enumerate(mc2.srun(n - k)):
                 got.append(observe(s2, mc2))
+                if rt and k + i2 == rt["step"]:
+                    mc2.temperature = rt["T"]      # the same re-tuning at the same step, if the file is from before it
             rec["got"] = got
             # the loaded dictionary is an input: rebuilding from it a second time (after the first rebuilt simulation has run) gives the same start
             mc3 = cls.from_dict(data)
@@ -124,16 +129,19 @@ def run_case(c, d):
                 mc4 = cls.from_dict(read_json(io.StringIO(files[k])))
                 mc4.atoms.calc = fresh_calc(p)
                 mc4.default_restart = path2
-                for _ in mc4.srun(j):
-                    pass
+                for i4, _ in enumerate(mc4.srun(j)):
+                    if rt and k + i4 == rt["step"]:
+                        mc4.temperature = rt["T"]
                 mc4.file_manager.close() if hasattr(mc4.file_manager, "close") else None
                 with open(path2) as fh:
                     data2 = read_json(io.StringIO(fh.read()))
                 mc5 = cls.from_dict(data2)
                 mc5.atoms.calc = fresh_calc(p)
                 rec["chain"] = {"j": j, "step_count_loaded": int(mc5.step_count), "got": []}
-                for _ in mc5.srun(n - k - j):
+                for i5, _ in enumerate(mc5.srun(n - k - j)):
                     rec["chain"]["got"].append(observe(s2, mc5))
+                    if rt and k + j + i5 == rt["step"]:
+                        mc5.temperature = rt["T"]
         except Exception as e:  # noqa: BLE001
             import traceback
             rec["error"] = f"{type(e).__name__}: {str(e)[:300]}"
